@@ -329,7 +329,7 @@ theorem c17_core_deposit_fee {s : State} {r : State × Nat} {c : Nat} {tk : Tk} 
   have hfee0 : 0 ≤ s.params.houseFee.raw := hv.1.1.1.2
   unfold houseDepositO at h
   simp only [bind, Option.bind_eq_some_iff, pure, Option.some.injEq] at h
-  obtain ⟨_, ha, _, _, _, _, s1, h1, _, _, mk, _, b, hb, _, _, _, _, _, _, s2, h2, s3, h3, rfl⟩ := h
+  obtain ⟨_, ha, _, _, _, _, s1, h1, _, _, mk, _, b, hb, _, _, _, _, _, _, _, _, s2, h2, s3, h3, rfl⟩ := h
   have ha := chk_some ha
   simp only [decide_eq_true_eq] at ha
   have hf : 0 ≤ (s.params.houseFee.mulInt a).roundInt := by
